@@ -96,11 +96,27 @@ def defer_measurements(
     """
 
     circuit = transformer_primitives.unroll_circuit_op(circuit, deep=True, tags_to_check=None)
-    terminal_measurements = {op for _, op in find_terminal_measurements(circuit)}
+    # Terminal measurements are identified by their position: an earlier measurement may be equal
+    # (same gate, key and qubits) to a terminal one.
+    terminal_measurements = set(find_terminal_measurements(circuit))
+    # A terminal measurement whose key is also recorded by an earlier measurement is deferred as
+    # well, so that the instances of that key keep their order.
+    earlier_keys = {
+        key
+        for i, moment in enumerate(circuit)
+        for op in moment
+        if protocols.is_measurement(op) and (i, op) not in terminal_measurements
+        for key in protocols.measurement_key_objs(op)
+    }
+    terminal_measurements = {
+        (i, op)
+        for i, op in terminal_measurements
+        if not (protocols.measurement_key_objs(op) & earlier_keys)
+    }
     measurement_qubits: dict[cirq.MeasurementKey, list[tuple[cirq.Qid, ...]]] = defaultdict(list)
 
-    def defer(op: cirq.Operation, _) -> cirq.OP_TREE:
-        if op in terminal_measurements:
+    def defer(op: cirq.Operation, moment_index: int | None) -> cirq.OP_TREE:
+        if (moment_index, op) in terminal_measurements:
             return op
         gate = op.gate
         if isinstance(gate, ops.MeasurementGate):
